@@ -3,6 +3,8 @@ import build
 
 H = build.register_harness
 H('gp', ['gp.c'])
+H('crcu', ['crcu.c'])
+H('poll', ['poll.c'])
 H('bpreg', ['bpreg.c'], ldflags=['-Wl,--wrap=mremap', '-Wl,--wrap=mmap'])
 
 PROPS = {}
@@ -210,6 +212,101 @@ def c15(tier, seed):
                     timeout=400 * scale))
     out.append(case('bp-waves-nomb', 'bpreg', 'bp', 'plain', ['--growth=0', '--max-live=%d' % maxlive],
                     {'VP_NO_MEMBARRIER': '1'}, cpus=8, timeout=300 * scale))
+    return out
+
+
+# --------------------------------------------------------------------------------------------
+# C03 / C04
+
+def _crcu_cases(tier, seed, focus):
+    out = []
+    scale = 1 if tier == 'quick' else 30
+    layouts = [(0, 'default'), (1, 'perthread'), (2, 'percpu'), (3, 'mixed')]
+    fl_list = FLAVORS if tier == 'thorough' or focus == 'c03' else FLAVORS
+    for fl in fl_list:
+        for (lay, lname) in layouts:
+            rt = (seed + lay + FLAVORS.index(fl)) % 2
+            if tier == 'quick' and fl in ('mb', 'bp') and lay in (2,):
+                continue
+            nb = 1 if focus == 'c03' else 3
+            out.append(case('%s-%s-rt%d' % (fl, lname, rt), 'crcu', fl, 'plain',
+                            ['--cfg=%s-%s-rt%d' % (fl, lname, rt), '--focus=%s' % focus, '--layout=%d' % lay, '--rt=%d' % rt,
+                             '--enqueuers=%d' % (4 if focus == 'c03' else 3), '--readers=2', '--barriers=%d' % nb,
+                             '--calls=%d' % (40000 * scale)], {}, cpus=8, timeout=300 * scale))
+    for fl in ('memb', 'qsbr'):
+        out.append(case('%s-asan-mixed' % fl, 'crcu', fl, 'asan',
+                        ['--cfg=%s-asan-mixed' % fl, '--focus=%s' % focus, '--layout=3', '--rt=0', '--enqueuers=4', '--readers=2',
+                         '--barriers=2', '--calls=%d' % (15000 * scale)], {}, cpus=8, timeout=400 * scale))
+        out.append(case('%s-tsan-perthread' % fl, 'crcu', fl, 'tsan',
+                        ['--cfg=%s-tsan-perthread' % fl, '--focus=%s' % focus, '--layout=1', '--rt=0', '--enqueuers=3', '--readers=2',
+                         '--barriers=2', '--calls=%d' % (8000 * scale), '--stall-ms=90000'], {}, cpus=8, timeout=600 * scale))
+    # futex faults on the helper / barrier wake-up paths
+    for i, (fm, fargs) in enumerate(FAULT_MODES[1:5]):
+        fl = FLAVORS[(seed + i) % 3]
+        out.append(case('%s-fault-%s' % (fl, fm), 'crcu', fl, 'plain',
+                        ['--cfg=%s-fault-%s' % (fl, fm), '--focus=%s' % focus, '--layout=%d' % (1 if i % 2 else 0), '--rt=0',
+                         '--enqueuers=3', '--readers=2', '--barriers=2', '--calls=%d' % (20000 * scale)] + fargs, {}, cpus=8,
+                        timeout=300 * scale))
+    return out
+
+
+@prop('C03', 'call_rcu(): every callback runs exactly once, only after a full grace period', 'exploration',
+      'one evaluation = one callback: invocation counter must be exactly 1 at quiescence (after rcu_barrier x (depth+2)), head '
+      'identity checked in the callback, [call_rcu call, callback entry] compared with every logged reader section, object '
+      'poisoned/freed by the callback (readers validate inside sections; ASan/TSan builds really free). non-trivial = '
+      'call_rcu() found >=1 reader section open; distinct = (configuration, helper layout, RT, chain depth, #pre-existing '
+      'readers, latency bucket).',
+      ['"eventually" = by the time the bounded scenario\'s barriers return', 'x86-64 TSO; TSC calibrated per run'])
+def c03(tier, seed):
+    return _crcu_cases(tier, seed, 'c03')
+
+
+@prop('C04', 'rcu_barrier() returns only after all previously queued callbacks have run', 'exploration',
+      'one evaluation = one rcu_barrier() call [call,ret]; offline join with (call_rcu return stamp, callback completion stamp) '
+      'of every callback: any callback with enq_ret+eps < call must have completed by ret+eps; barrier callers 2-3 concurrent, '
+      'helpers created/destroyed concurrently, slow callbacks; stuck-state detector for "always returns". non-trivial = barrier '
+      'that found >=1 earlier callback still pending at its call; distinct = (configuration, layout, RT, pending bucket, #callers).',
+      ['callers are never inside a read-side section nor on a helper thread (excluded by the statement)',
+       'completion stamp is taken as the callback\'s last action (slightly before it really returns)'])
+def c04(tier, seed):
+    return _crcu_cases(tier, seed, 'c04')
+
+
+# --------------------------------------------------------------------------------------------
+# C14
+
+@prop('C14', 'Grace-period polling never reports completion early and eventually reports it', 'exploration',
+      'one evaluation = one handle from start_poll_synchronize_rcu() polled until true: [start_poll call, first true poll return] '
+      'is compared with every logged reader section; the object unpublished before start_poll is retired after "true" (poison / '
+      'ASan / TSan); completed handles are re-polled at random later (must stay true); bounded scenario + stuck-state detector '
+      '(worker inactive with outstanding target) for "eventually". non-trivial = start_poll found >=1 reader section open; '
+      'distinct = (configuration, worker active/idle at start_poll, #pre-existing readers, latency bucket).',
+      ['counter wrap-around is exercised by presetting the ids near ULONG_MAX / LONG_MAX before any thread polls (2^63 real '
+       'grace periods are out of reach)', 'x86-64 TSO; TSC calibrated per run'])
+def c14(tier, seed):
+    out = []
+    scale = 1 if tier == 'quick' else 40
+    for fl in FLAVORS:
+        out.append(case('%s' % fl, 'poll', fl, 'plain',
+                        ['--cfg=%s' % fl, '--pollers=4', '--readers=2', '--handles=%d' % (1500 * scale)], {}, cpus=8,
+                        timeout=300 * scale))
+    for preset in ('wrap', 'signwrap'):
+        fl = FLAVORS[(seed + len(preset)) % 4]
+        out.append(case('%s-%s' % (fl, preset), 'poll', fl, 'plain',
+                        ['--cfg=%s-%s' % (fl, preset), '--preset=%s' % preset, '--pollers=3', '--readers=2',
+                         '--handles=%d' % (800 * scale)], {}, cpus=6, timeout=300 * scale))
+    out.append(case('memb-nomb', 'poll', 'memb', 'plain', ['--cfg=memb-nomb', '--pollers=4', '--readers=2',
+                                                          '--handles=%d' % (1000 * scale)], {'VP_NO_MEMBARRIER': '1'}, cpus=8,
+                    timeout=300 * scale))
+    for fl in ('memb', 'qsbr'):
+        out.append(case('%s-asan' % fl, 'poll', fl, 'asan', ['--cfg=%s-asan' % fl, '--pollers=3', '--readers=2',
+                                                             '--handles=%d' % (600 * scale)], {}, cpus=6, timeout=400 * scale))
+    out.append(case('memb-tsan', 'poll', 'memb', 'tsan', ['--cfg=memb-tsan', '--pollers=3', '--readers=2',
+                                                          '--handles=%d' % (400 * scale), '--stall-ms=90000'], {}, cpus=6,
+                    timeout=600 * scale))
+    out.append(case('mb-fault-mixed', 'poll', 'mb', 'plain', ['--cfg=mb-fault', '--pollers=3', '--readers=2',
+                                                              '--handles=%d' % (800 * scale), '--f-spurious=0.1', '--f-eintr=0.1'],
+                    {}, cpus=6, timeout=300 * scale))
     return out
 
 
